@@ -2,9 +2,9 @@
 
 Correspondence: random call histories on ONE Baseline / Baseline2D object; after every call the
 implementation's cache abstraction is read and compared (exactly, inside Coq) with the state of the
-executable model coq/C03/Model.v run on the same history.  The call -> cache-steps table below is the
-hand-written description of the method bodies the model is driven with; if a method changes which
-_setup_* it calls, the correspondence breaks.
+executable model coq/C03/Model.v run on the same history.  The model is driven by the call table GENERATED
+from the current method bodies (tools/gen_c03.py -> coq/gen/GenC03.v): a call is handed to Coq as (registered
+method name, concrete argument values) and instantiated there (coq/C03/Instantiate.v).
 Direct oracle: every call of every history is also made on a fresh object with the current x-values
 and the two results are compared bit for bit."""
 import json
@@ -17,9 +17,11 @@ from .common import zl
 PROP = 'C03'
 
 HEADER = """From Coq Require Import ZArith List Bool.
-From PB Require Import lib.CaseUtil C03.Model C03.Model2D.
+From Coq Require Import String.
+From PB Require Import lib.CaseUtil C03.Model C03.Model2D C03.Table C03.Instantiate gen.GenC03.
 Import ListNotations.
 Open Scope Z_scope.
+Open Scope string_scope.
 """
 
 NUMERIC_EXC = ('LinAlgError', 'FloatingPointError', 'ZeroDivisionError')
@@ -58,6 +60,28 @@ def gen_call_1d(rng, last=None):
     kw = {}
     if r < 0.06:
         return {'m': 'set_solver', 'v': rng.choice([1, 2, 3, 4, 1, 3, 4, 0, 5, -1, 7])}
+    if r < 0.13:
+        m = rng.choice(['adaptive_minmax', 'adaptive_minmax', 'collab_pls', 'collab_pls', 'optimize_extended_range', 'custom_bc'])
+        if m == 'adaptive_minmax':
+            p = rng.choice([0, 1, 2, 3, 4])
+            kw = {'method': rng.choice(['modpoly', 'imodpoly', 'poly', 'penalized_poly']),
+                  'poly_order': p if rng.random() < 0.6 else [p, rng.choice([1, 2, 5])]}
+            w = rng.choice([None, 'ok'])
+        elif m == 'collab_pls':
+            im = rng.choice(['asls', 'arpls', 'pspline_asls', 'pspline_arpls'])
+            mk = {'max_iter': 6, 'lam': 1e3}
+            if im.startswith('pspline'):
+                k, d = rng.choice(KD_POOL)
+                mk.update(num_knots=k, spline_degree=d, lam=10)
+            kw = {'method': im, 'method_kwargs': mk}
+        elif m == 'optimize_extended_range':
+            kw = {'method': rng.choice(['asls', 'modpoly']), 'min_value': 2, 'max_value': 3, 'height_scale': 0.5}
+            if kw['method'] == 'asls':
+                kw['method_kwargs'] = {'max_iter': 5}
+        else:
+            kw = {'method': 'asls', 'method_kwargs': {'lam': 1e3, 'max_iter': 5},
+                  'regions': [[None, 8]], 'sampling': 2, 'lam': rng.choice([None, 1e2])}
+        return {'m': m, 'kw': kw, 'data': 'ok', 'w': w}
     if r < 0.40:
         m = rng.choice(POLY_PINV + POLY_PINV + POLY_VAND)
         p = rng.choice([0, 1, 2, 2, 3, 3, 4, 5, 6, 7])
@@ -134,47 +158,6 @@ def gen_call_1d(rng, last=None):
     return {'m': m, 'kw': kw, 'data': data, 'w': w}
 
 
-def setups_1d(call, n_data):
-    """The cache-relevant steps of the method body, in source order (the model's `setup` list).
-    n_data = len(data) (used for the length of weights the body itself builds)."""
-    m, kw, w = call['m'], call['kw'], call['w']
-    wl = None if w is None else (n_data if w == 'ok' else n_data + 1)
-    tail = []
-    if m in POLY_PINV:
-        return [('P', wl, kw['poly_order'], True, True)] + tail
-    if m in POLY_VAND:
-        return [('P', wl, kw['poly_order'], True, False)] + tail
-    if m == 'dietrich':
-        return [('P', None, kw['poly_order'], True, True)] if kw['max_iter'] > 0 else []
-    if m == 'swima':
-        return [('P', None, 3, True, True)]
-    if m == 'cwt_br':
-        return [('P', n_data, kw['poly_order'], True, False)]
-    if m in ('iasls', 'pspline_iasls'):
-        if kw.get('p', 0.01) >= 1 or kw['diff_order'] < 2:
-            return [('R',)]
-        s = []
-        if w is None:
-            s.append(('P', None, 2, True, True))
-            wl2 = n_data
-        else:
-            wl2 = wl
-        if m == 'iasls':
-            s.append(('W', wl2, kw['diff_order']))
-        else:
-            s.append(('S', wl2, kw['num_knots'], kw['spline_degree'], True, kw['diff_order']))
-        if kw.get('lam_1', 1) < 0:
-            s.append(('R',))
-        return s
-    if m in SPLINES:
-        return [('S', wl, kw['num_knots'], kw['spline_degree'], True, kw['diff_order'])] + tail
-    if m == 'corner_cutting':
-        return [('S', None, 10, 3, False, 3)]
-    if m in WHITS:
-        return [('W', wl, kw['diff_order'])] + tail
-    return []
-
-
 def coq_opt(v):
     return 'None' if v is None else f'(Some {zl(v)})'
 
@@ -183,26 +166,68 @@ def coq_b(b):
     return 'true' if b else 'false'
 
 
-def coq_setup(s):
-    if s[0] == 'P':
-        return f'SPoly {coq_opt(s[1])} {zl(s[2])} {coq_b(s[3])} {coq_b(s[4])}'
-    if s[0] == 'S':
-        return f'SSpline {coq_opt(s[1])} {zl(s[2])} {zl(s[3])} {coq_b(s[4])} {zl(s[5])}'
-    if s[0] == 'W':
-        return f'SWhit {coq_opt(s[1])} {zl(s[2])}'
-    return 'SRaise'
+OPTIMIZERS = {'adaptive_minmax', 'collab_pls', 'optimize_extended_range', 'custom_bc'}
 
 
-def coq_call_1d(call, N, extra_raise=False):
+def pre_raise_1d(call):
+    """Parameter validation at the top of a method body, before its first _setup_* call (the only part of the
+    call table that is still written by hand: the deliberately invalid scalar parameters this generator uses)."""
+    m, kw = call['m'], call['kw']
+    if m in ('iasls', 'pspline_iasls'):
+        return kw.get('p', 0.01) >= 1 or kw.get('diff_order', 2) < 2
+    return False
+
+
+def _intval(v):
+    return int(v) if isinstance(v, (int, np.integer)) and not isinstance(v, bool) else 0
+
+
+def args_1d(m, kw, nd, dataok, w, pre, post, N=0):
+    """Coq `args` literal: the concrete values of the parameters the generated call table refers to.  Values
+    not passed explicitly are the defaults of the method's signature."""
+    import inspect
+    from pybaselines import Baseline
+    sig = inspect.signature(getattr(Baseline, m)).parameters
+
+    def val(name):
+        if name in kw:
+            return kw[name]
+        return sig[name].default if name in sig else 0
+    wl = None if w is None else ((nd if nd is not None else N) + (0 if w == 'ok' else 1))
+    mi = val('max_iter')
+    return ('{| a_data := %s; a_dataok := %s; a_w := %s; a_poly := %s; a_knots := %s; a_degree := %s; a_dorder := %s; '
+            'a_maxiter_pos := %s; a_lam_given := %s; a_pre_raise := %s; a_post_raise := %s |}'
+            % (coq_opt(nd), coq_b(dataok), coq_opt(wl), zl(_intval(val('poly_order'))), zl(_intval(val('num_knots'))),
+               zl(_intval(val('spline_degree'))), zl(_intval(val('diff_order'))),
+               coq_b(isinstance(mi, (int, float)) and mi > 0), coq_b(val('lam') is not None),
+               coq_b(pre), coq_b(post)))
+
+
+def inner_calls(call):
+    """The registered methods an optimizer delegates to on the SAME object, in order: (method, kwargs, weights)."""
+    m, kw = call['m'], call['kw']
+    if m == 'adaptive_minmax':
+        po = kw['poly_order']
+        orders = list(po) if isinstance(po, (list, tuple)) else [po, po + 1]
+        return [(kw['method'], {'poly_order': o}, 'ok') for o in orders for _ in range(2)]
+    if m == 'collab_pls':
+        mk = dict(kw.get('method_kwargs') or {})
+        return [(kw['method'], mk, None), (kw['method'], mk, 'ok'), (kw['method'], mk, 'ok')]
+    return []   # optimize_extended_range / custom_bc fit on a NEW object (_override_x)
+
+
+def group_1d(call, N, raised):
+    """One user-level call as a list of Coq `item`s (an optimizer: its own prologue, then its delegated calls)."""
     if call['m'] == 'set_solver':
-        return f'SetSolver {zl(call["v"])}'
+        return [f'ISolver {zl(call["v"])}']
     nd = {'ok': N, 'nan': N, 'short': N - 1, 'none': None}[call['data']]
-    ss = setups_1d(call, nd if nd is not None else N)
-    if extra_raise:
-        ss = ss + [('R',)]
-    return ('Call {| c_unique := %s; c_data := %s; c_dataok := %s; c_setups := [%s] |}'
-            % (coq_b(call['m'] in UNIQUE), coq_opt(nd), coq_b(call['data'] != 'nan'),
-               '; '.join(coq_setup(s) for s in ss)))
+    kw = dict(SPEED.get(call['m'], {}))
+    kw.update(call['kw'])
+    inner = inner_calls(call) if call['m'] in OPTIMIZERS else []
+    items = [f'IMethod "{call["m"]}" {args_1d(call["m"], kw, nd, call["data"] != "nan", call["w"], pre_raise_1d(call), raised and not inner, N)}']
+    for k, (im, ikw, iw) in enumerate(inner):
+        items.append(f'IMethod "{im}" {args_1d(im, ikw, nd, True, iw, False, raised and k == len(inner) - 1, N)}')
+    return items
 
 
 # ------------------------------------------------------------------------------------------ data
@@ -237,7 +262,9 @@ def call_args_1d(call, N, y):
     kw = dict(SPEED.get(call['m'], {}))
     kw.update(PLAIN.get(call['m'], {}))
     kw.update(UNIQUE_PLAIN.get(call['m'], {}))
-    kw.update(call['kw'])
+    kw.update({k: (dict(v) if isinstance(v, dict) else v) for k, v in call['kw'].items()})
+    if call['m'] == 'collab_pls':
+        data = np.vstack([y, 1.1 * y + 1])
     nd = N - 1 if call['data'] == 'short' else N
     if call['w'] == 'ok':
         kw['weights'] = np.linspace(0.5, 1.5, nd)
@@ -394,7 +421,7 @@ def gen_history_1d(rng, nmax=12):
 
 def nontrivial_1d(h):
     """the history exercises a cache: at least two calls touching the same cache with different keys"""
-    ps = [c['kw']['poly_order'] for c in h['calls'] if c.get('kw') and 'poly_order' in c['kw']]
+    ps = [str(c['kw']['poly_order']) for c in h['calls'] if c.get('kw') and 'poly_order' in c['kw']]
     ks = [(c['kw']['num_knots'], c['kw']['spline_degree']) for c in h['calls'] if c.get('kw') and 'num_knots' in c['kw']]
     return len(set(ps)) > 1 or len(set(ks)) > 1
 
@@ -417,7 +444,7 @@ def coq_x0(h):
 def history_literal_1d(h, recs):
     ops = []
     for call, rec in zip(h['calls'], recs):
-        ops.append(coq_call_1d(call, h['N'], extra_raise=unpredicted_ok(call, rec)))
+        ops.append('[' + '; '.join(group_1d(call, h['N'], unpredicted_ok(call, rec))) + ']')
     exp = '[' + '; '.join('[' + '; '.join(zl(v) for v in rec[0]) + ']' for rec in recs) + ']'
     return f'({coq_x0(h)}, [{"; ".join(ops)}], {exp})'
 
@@ -491,10 +518,14 @@ Eval vm_compute in (bad ok cases).
     return bad_any
 
 
-OK_1D = """Definition ok (c : option xsym * list op * list (list Z)) : bool :=
-  let '(x0, ops, exp) := c in zll_eqb (trace (init XSym x0) ops) exp."""
-OK_2D = """Definition ok (c : option Z * option Z * list op2 * list (list Z)) : bool :=
-  let '(x0, z0, ops, exp) := c in zll_eqb (trace2 (init2 x0 z0) ops) exp."""
+# the model is driven by the call table GENERATED from the current source (gen/GenC03.v): each call is given as
+# (registered method name, concrete argument values) and instantiated inside Coq
+OK_1D = """Definition ok (c : option xsym * list (list item) * list (list Z)) : bool :=
+  let '(x0, gs, exp) := c in
+  match trace_g gen_methods (init XSym x0) gs with Some tr => zll_eqb tr exp | None => false end."""
+OK_2D = """Definition ok (c : option Z * option Z * list item2 * list (list Z)) : bool :=
+  let '(x0, z0, l, exp) := c in
+  match trace2_t gen_methods (init2 x0 z0) l with Some tr => zll_eqb tr exp | None => false end."""
 
 
 def histories(ctx, dim, count):
@@ -598,11 +629,15 @@ def run(ctx):
         'np.linalg.pinv, polyvander, SplineBasis, mapdomain are deterministic functions of their arguments (Section variables '
         'vander/slice/pinv/basis with the contract slice(vander p, q) = vander q; the contract is proved for the repeated-multiplication '
         'model of polyvander and sampled bit-for-bit against NumPy by the value-level invariant check of every run)',
-        'the call -> _setup_* steps table in harness/c03.py (hand-written from the method bodies; validated by the correspondence)',
+        'tools/gen_c03.py (Python ast -> call table gen/GenC03.v: per registered method the ordered _setup_* calls with their key '
+        'arguments, guards, weights class, require_unique_x; fail-closed, UUnknown for any other touch of the object state); '
+        'hand-written remainder: which deliberately invalid scalar parameters are rejected before the first setup (pre_raise_1d/2d) '
+        'and the list of methods an optimizer delegates to (inner_calls) -- both validated by the correspondence',
         '"fresh object with the same x-values" is read as: a new object built with the current x (for an object created without x: '
         'the linspace(-1, 1, N) it created at its first call, N >= 2) and the same banded_solver',
     ]
     ctx.gate()
+    ctx.translate(['GenC03'])
     ok = ctx.build_props()
     vander_device1(ctx)
     n1 = ctx.n(500, 4000)
@@ -613,8 +648,9 @@ def run(ctx):
     num += histories(ctx, 2, n2)
     ctx.note(f'{n1} 1-D and {n2} 2-D histories; every call also made on a fresh object and compared bit for bit; '
              f'{num} calls raised something other than ValueError (numerical failures in the body; every raise is accepted at the predicted stage or at the end of the body, the cache state must match either way). '
-             'Not covered: optimizer methods (collab_pls, optimize_extended_range, adaptive_minmax, custom_bc, individual_axes) appear '
-             'only through the methods they call; objects whose lazily created x has one point; non-integer / array-like parameters; '
+             '1-D optimizers are in the histories (adaptive_minmax and collab_pls as groups of delegated calls on the same object, '
+             'optimize_extended_range and custom_bc fit on a new object via _override_x). Not covered: 2-D optimizers (collab_pls, adaptive_minmax, '
+             'individual_axes) in the correspondence; nested optimizers; objects whose lazily created x has one point; non-integer / array-like parameters; '
              'check_finite=False objects; pentapy-absent environments')
 
 
